@@ -3,6 +3,7 @@ import CoupeModel.Proofs.KMeansAbs
 import CoupeModel.Props.C14
 import CoupeModel.Props.C15
 import CoupeModel.Props.C07
+import CoupeModel.Props.C05
 
 /-!
 # C02 — Partition-improving algorithms keep a valid partition valid
@@ -17,8 +18,10 @@ Property theorems only.  C02 is partly an umbrella:
   the theorems below restate what C02 needs in C02's wording and are proved from the owners'
   theorems (`vnbest_total_preserved`, `vnbest_terminates`, `vnfirst_total_preserved`,
   `vnfirst_terminates`, `kl_ids`, `kl_total`, `fm_ids`, `fm_total`).
-* **ArcSwap** (`Model/ArcSwap.lean`, C05) is stated in C05 (`ids_valid`, `passes_terminate`);
-  its corollary is not restated here.
+* **ArcSwap** (`Model/ArcSwap.lean`, C05: a transition system over the hooked shared-memory
+  accesses, every interleaving): `arcswap_keeps_valid` (every `Ok` outcome under every schedule,
+  and every intermediate state) from `arcswap_correct` / `ids_valid`.  Totality of ArcSwap is
+  `_partial`: see `arcswap_total_statement` / `arcswap_total_partial`.
 -/
 
 namespace Coupe.C02
@@ -236,6 +239,88 @@ theorem fm_keeps_valid (ch : Nat → Nat → Nat) (prm : Coupe.Fm.Params) (capOp
         · cases hr
         · split at hr <;> cases hr
 
+/-! ## ArcSwap (owner: C05) -/
+
+/-- ArcSwap, every pool size, EVERY thread interleaving (`scheds`: one schedule per pass, any
+list of task ids): an `Ok` outcome has the input's length and every id is below
+`part_count = max(2, 1 + max id)` (`arc_swap.rs:401-402`) – so for an input with at least two
+parts (largest id ≥ 1; in particular every valid partition with ≥ 2 parts) no id exceeds the
+largest id of the input; for a one-part input ids stay ≤ 1.  Hypotheses (`Hyp`): the usage
+contract – square CSR graph with in-range indices, symmetric, loop-free, vertex weights ≥ 0. -/
+theorem arcswap_keeps_valid (g : Coupe.ArcSwap.Graph) (w : List Int) (p₀ : List Nat) (maxPw : Int)
+    (threads : Nat) (hy : Coupe.ArcSwap.Hyp (Coupe.ArcSwap.mkCfg g w p₀ maxPw threads) p₀)
+    (scheds : List (List Nat)) (fuel passes : Nat) (ids : List Nat) (md : Coupe.ArcSwap.Metadata)
+    (tr : List (List (Nat × Coupe.ArcSwap.Event)))
+    (hr : Coupe.ArcSwap.run (Coupe.ArcSwap.mkCfg g w p₀ maxPw threads) p₀ scheds fuel passes
+      = (.ok ids md, tr)) :
+    ids.length = p₀.length ∧ (∀ p ∈ ids, p ≤ max 1 (p₀.foldl max 0)) ∧
+      (1 ≤ p₀.foldl max 0 → ∀ p ∈ ids, p ≤ p₀.foldl max 0) := by
+  obtain ⟨h1, h2, -⟩ := Coupe.ArcSwap.arcswap_correct hy hr
+  have hpc : (Coupe.ArcSwap.mkCfg g w p₀ maxPw threads).partCount = max 2 (1 + p₀.foldl max 0) := rfl
+  rw [hpc] at h2
+  refine ⟨h1, fun p hp => ?_, fun h p hp => ?_⟩
+  · have := h2 p hp; omega
+  · have := h2 p hp; omega
+
+/-- …and not only at the end: in EVERY state reachable by any interleaving of the tasks' steps
+(what another thread, or the caller after a panic elsewhere, could observe) the array has the
+input's length and every entry is a part id below `part_count` – no element is ever left
+unassigned or out of range. -/
+theorem arcswap_keeps_valid_always (g : Coupe.ArcSwap.Graph) (w : List Int) (p₀ : List Nat)
+    (maxPw : Int) (threads : Nat)
+    (hy : Coupe.ArcSwap.Hyp (Coupe.ArcSwap.mkCfg g w p₀ maxPw threads) p₀)
+    (s : Coupe.ArcSwap.State)
+    (h : Coupe.ArcSwap.Reach (Coupe.ArcSwap.mkCfg g w p₀ maxPw threads) p₀ s) :
+    s.parts.length = p₀.length ∧ ∀ p ∈ s.parts, p ≤ max 1 (p₀.foldl max 0) := by
+  obtain ⟨h1, h2⟩ := Coupe.ArcSwap.ids_valid hy.cfg h
+  have hpc : (Coupe.ArcSwap.mkCfg g w p₀ maxPw threads).partCount = max 2 (1 + p₀.foldl max 0) := rfl
+  rw [hpc] at h2
+  exact ⟨h1, fun p hp => by have := h2 p hp; omega⟩
+
+/-- FULL totality statement for ArcSwap – NOT PROVED: under the contract and non-negative edge
+weights, for every schedule some fuel lets the run return `Ok` (no panic, no hang). -/
+def arcswap_total_statement : Prop :=
+  ∀ (g : Coupe.ArcSwap.Graph) (w : List Int) (p₀ : List Nat) (maxPw : Int) (threads : Nat)
+    (scheds : List (List Nat)),
+    Coupe.ArcSwap.Hyp (Coupe.ArcSwap.mkCfg g w p₀ maxPw threads) p₀ →
+    (∀ e ∈ Coupe.ArcSwap.edges g, 0 ≤ e.2.2) →
+    ∃ fuel passes ids md tr,
+      Coupe.ArcSwap.run (Coupe.ArcSwap.mkCfg g w p₀ maxPw threads) p₀ scheds fuel passes
+        = (.ok ids md, tr)
+
+/-- What IS proved of it (from C05's `passes_terminate`): the OUTER loop terminates – in every
+reachable state the number of passes begun is at most `cut(input) + 1`.  Missing for
+`arcswap_total_statement`: (1) C05's `pass_terminates_statement` – that the inner loop of a task
+within ONE pass ends (every move lowers the cut and between two moves a task only pops its stack,
+but the measure is not formalised); (2) that the model's only panic site (`Pc.panic`:
+`max_by(..).unwrap()` on an empty range of target parts, which needs `part_count < 2`) is
+unreachable is argued in `Model/ArcSwap.lean` but not exported as a theorem by C05.  Neither a
+panic nor fuel exhaustion occurred in any run of C05 or C02. -/
+theorem arcswap_total_partial (g : Coupe.ArcSwap.Graph) (w : List Int) (p₀ : List Nat)
+    (maxPw : Int) (threads : Nat)
+    (hy : Coupe.ArcSwap.Hyp (Coupe.ArcSwap.mkCfg g w p₀ maxPw threads) p₀)
+    (hw : ∀ e ∈ Coupe.ArcSwap.edges g, 0 ≤ e.2.2) (s : Coupe.ArcSwap.State)
+    (h : Coupe.ArcSwap.Reach (Coupe.ArcSwap.mkCfg g w p₀ maxPw threads) p₀ s) :
+    (s.md.passCount : Int) ≤ Coupe.ArcSwap.cut g p₀ + 1 :=
+  Coupe.ArcSwap.passes_terminate hy hw h
+
+/-- Non-vacuity (C05's example: path `0 - 1 - 2`, parts `[0,1,0]`, two workers, a schedule with a
+lock conflict): the hypotheses hold and the run does real work (`[0,1,0] → [1,1,1]`). -/
+example : Coupe.ArcSwap.Hyp (Coupe.ArcSwap.mkCfg [[(1, 1)], [(0, 1), (2, 1)], [(1, 1)]] [1, 1, 1]
+    [0, 1, 0] 4 2) [0, 1, 0] := Coupe.ArcSwap.hyp_of_check (by decide)
+example : (Coupe.ArcSwap.run (Coupe.ArcSwap.mkCfg [[(1, 1)], [(0, 1), (2, 1)], [(1, 1)]] [1, 1, 1]
+    [0, 1, 0] 4 2) [0, 1, 0] [List.replicate 18 0 ++ [1, 1, 1, 1, 1, 0]] 1000 10).1 =
+    .ok [1, 1, 1] { edgeCutGain := 2, passCount := 3, moveAttempts := 5, moveCount := 2,
+                    raceCount := 1, noGainCount := 2, verticesPerThread := 2 } := by
+  decide +kernel
+example (ids : List Nat) (md : Coupe.ArcSwap.Metadata) (tr : List (List (Nat × Coupe.ArcSwap.Event)))
+    (hr : Coupe.ArcSwap.run (Coupe.ArcSwap.mkCfg [[(1, 1)], [(0, 1), (2, 1)], [(1, 1)]] [1, 1, 1]
+      [0, 1, 0] 4 2) [0, 1, 0] [List.replicate 18 0 ++ [1, 1, 1, 1, 1, 0]] 1000 10 = (.ok ids md, tr)) :
+    ids.length = 3 ∧ ∀ p ∈ ids, p ≤ 1 := by
+  obtain ⟨h1, -, h3⟩ := arcswap_keeps_valid _ _ _ _ _ (Coupe.ArcSwap.hyp_of_check (by decide)) _ _ _
+    ids md tr hr
+  exact ⟨h1, h3 (by decide)⟩
+
 /-- Non-vacuity of the corollaries: their hypotheses are met by concrete non-trivial inputs (the
 owners' own examples – the weighted 4-cycle of C07, the 8-path of C15, the D7 witness of C14). -/
 example : ∃ r, Coupe.Fm.run (fun _ _ => 0) ⟨none, none, 1, true⟩ (some 30) Coupe.Fm.g4 [5,7,11,13]
@@ -262,3 +347,6 @@ end Coupe.C02
 #print axioms Coupe.C02.kl_keeps_valid
 #print axioms Coupe.C02.kl_stays_01
 #print axioms Coupe.C02.fm_keeps_valid
+#print axioms Coupe.C02.arcswap_keeps_valid
+#print axioms Coupe.C02.arcswap_keeps_valid_always
+#print axioms Coupe.C02.arcswap_total_partial
